@@ -115,8 +115,13 @@ type vhWorld struct {
 	quartz  *scheduler.VrtFakeQuartz
 }
 
-func vhNewWorld() *vhWorld {
+func vhNewWorld() *vhWorld { return vhNewWorldAt("") }
+
+// vhNewWorldAt builds a world whose root (and therefore every actor) lives at
+// the given advertise address ("" = localhost).
+func vhNewWorldAt(addr string) *vhWorld {
 	opts := vivid.NewActorSystemOptions()
+	opts.RemotingAdvertiseAddress = addr
 	sys := &System{
 		options:           opts,
 		futureAgents:      make(map[vivid.ActorPath]map[vivid.ActorPath]*AgentRef),
